@@ -7,6 +7,7 @@ import (
 	"os"
 	"path/filepath"
 	"reflect"
+	"strings"
 	"time"
 
 	"github.com/philpearl/plenc"
@@ -70,6 +71,7 @@ func roundTripCase(c *core.Ctx, idx int, mode int) {
 	rec.Count("cfg_"+tc.name, 1)
 	rv := c.RandFor(idx, "values")
 	var prev []byte
+	var last reflect.Value
 	for j := 0; j < valuesPerType(c); j++ {
 		vg := &gen.VG{R: rv, C: tc.cfg, Budget: 250}
 		v := vg.Value(tc.typ, "")
@@ -119,7 +121,7 @@ func roundTripCase(c *core.Ctx, idx int, mode int) {
 				return
 			}
 		}
-		prev = data
+		prev, last = data, v
 		if mode == modeC02 {
 			checkWire(c, tc, v, data)
 			continue
@@ -142,6 +144,117 @@ func roundTripCase(c *core.Ctx, idx int, mode int) {
 		if d := model.CheckUTC(out.Elem(), "$"); d != "" {
 			rec.Violation("time-not-utc", fmt.Sprintf("[%s] %s\n  type %s", tc.name, d, typeString(tc.typ)), caseExtra(tc, v, data))
 			return
+		}
+	}
+	if idx%8 == 5 && tc.typ.Kind() == reflect.Struct && last.IsValid() {
+		sizedBodies(c, idx, tc, last, mode)
+	}
+}
+
+// sizedBodies pads a string or []byte field of struct value v until v's encoding is exactly 127,
+// 128, 129, 16383, 16384 or 16385 bytes long (the edges of the 1-, 2- and 3-byte length prefixes;
+// the thorough tier adds 2^21-1..2^21+1 now and then) and nests the value as a field, pointer
+// target, slice element and map value, so that a length prefix of exactly that size is written
+// and read at every kind of nesting.
+func sizedBodies(c *core.Ctx, idx int, tc *tcase, v reflect.Value, mode int) {
+	rec := c.Rec
+	var fld *model.FieldInfo
+	for _, f := range model.Fields(tc.typ) {
+		if (f.Type.Kind() == reflect.String && f.Type.PkgPath() == "") || f.Type == model.BytesT {
+			f := f
+			fld = &f
+			break
+		}
+	}
+	if fld == nil || tc.cfg.Validate(tc.typ, "") != "" {
+		return
+	}
+	nv := reflect.New(tc.typ).Elem()
+	nv.Set(model.DeepCopy(v))
+	set := func(n int) {
+		if fld.Type.Kind() == reflect.String {
+			nv.Field(fld.GoIndex).SetString(strings.Repeat("s", n))
+		} else {
+			nv.Field(fld.GoIndex).SetBytes(bytes.Repeat([]byte{'b'}, n))
+		}
+	}
+	targets := []int{127, 128, 129, 16383, 16384, 16385}
+	if c.Thorough() && idx%64 == 5 {
+		targets = append(targets, 1<<21-1, 1<<21, 1<<21+1)
+	}
+	sf := func(name string, t reflect.Type, tag string) reflect.StructField {
+		return reflect.StructField{Name: name, Type: t, Tag: reflect.StructTag(tag)}
+	}
+	for _, target := range targets {
+		set(0)
+		l := len(tc.cfg.Encode(nv))
+		n := target - l
+		for it := 0; it < 5 && n >= 0 && l != target; it++ {
+			set(n)
+			l = len(tc.cfg.Encode(nv))
+			n -= l - target
+		}
+		if l != target {
+			continue
+		}
+		one := reflect.MakeSlice(reflect.SliceOf(tc.typ), 2, 2)
+		one.Index(0).Set(nv)
+		m := reflect.MakeMap(reflect.MapOf(reflect.TypeOf(""), tc.typ))
+		m.SetMapIndex(reflect.ValueOf("k"), nv)
+		ptr := reflect.New(tc.typ)
+		ptr.Elem().Set(nv)
+		for _, w := range []struct {
+			name string
+			f    reflect.StructField
+			val  reflect.Value
+		}{
+			{"struct field", sf("X", tc.typ, `plenc:"1"`), nv},
+			{"pointer target", sf("X", ptr.Type(), `plenc:"2"`), ptr},
+			{"slice element", sf("X", one.Type(), `plenc:"3"`), one},
+			{"map value", sf("X", m.Type(), `plenc:"4"`), m},
+			{"proto map value", sf("X", m.Type(), `plenc:"5,proto"`), m},
+		} {
+			wt := reflect.StructOf([]reflect.StructField{sf("A", reflect.TypeOf(int32(0)), `plenc:"9"`), w.f, sf("Z", reflect.TypeOf(""), `plenc:"16"`)})
+			if tc.cfg.Validate(wt, "") != "" {
+				continue
+			}
+			wv := reflect.New(wt).Elem()
+			wv.Field(0).SetInt(-1)
+			wv.Field(1).Set(w.val)
+			wv.Field(2).SetString("end")
+			what := fmt.Sprintf("a %d-byte body nested as %s [%s]\n  body type %s", target, w.name, tc.name, typeString(tc.typ))
+			data, err, pn := marshal(tc.p, nil, ptrTo(wv))
+			rec.Eval(1)
+			if err != nil || pn != "" {
+				rec.Violation("sized-body", fmt.Sprintf("Marshal of %s: %v %s", what, err, trunc1(pn)), caseExtra(tc, reflect.Value{}, nil))
+				return
+			}
+			want := tc.cfg.Encode(wv)
+			same := bytes.Equal(data, want)
+			if !same && model.HasMultiMap(wv) && len(data) == len(want) {
+				cg, e1 := tc.cfg.Canon(wt, "", data)
+				cw, e2 := tc.cfg.Canon(wt, "", want)
+				same = e1 == nil && e2 == nil && bytes.Equal(cg, cw)
+			}
+			if !same {
+				k := 0
+				for k < len(data) && k < len(want) && data[k] == want[k] {
+					k++
+				}
+				rec.Violation("sized-body", fmt.Sprintf("the encoding of %s differs from the documented format at byte %d: got ...%s (%d bytes), want ...%s (%d bytes)", what, k, hexHead(data[max(0, k-4):min(len(data), k+12)]), len(data), hexHead(want[max(0, k-4):min(len(want), k+12)]), len(want)), caseExtra(tc, reflect.Value{}, nil))
+				return
+			}
+			out := reflect.New(wt)
+			if err, pn := unmarshal(tc.p, data, out.Interface()); err != nil || pn != "" {
+				rec.Violation("sized-body", fmt.Sprintf("Unmarshal of %s: %v %s", what, err, trunc1(pn)), caseExtra(tc, reflect.Value{}, nil))
+				return
+			}
+			if d := model.Diff(tc.cfg.Normalise(wv, "", true), out.Elem(), "$"); d != "" {
+				rec.Violation("sized-body", fmt.Sprintf("%s does not round-trip: %s", what, d), caseExtra(tc, reflect.Value{}, nil))
+				return
+			}
+			rec.Count("sized_bodies", 1)
+			rec.Distinct("sized_body_kinds", core.Hash64(fmt.Sprint(target), w.name))
 		}
 	}
 }
@@ -286,6 +399,7 @@ func init() {
 	genRule := "types: seeded random struct/slice/map/pointer compositions built with reflect (depth<=3, indexes over the 1/2-byte tag boundaries, flat/intern/proto options, json tags, skipped and unexported fields) plus a committed library of named, recursive, mutually recursive and embedding types; " +
 		"values: boundary-biased (every varint group edge, width limits, -0/NaN/denormals, strings around the 1/2/3-byte length prefixes, nil/empty/zero-keyed containers, zoned and monotonic times, null.* presence, JSON-any trees); four Plenc configurations. " +
 		"Every third value also goes through a long-lived instance per configuration that has built the codecs of all earlier cases; between the values of a case, damaged encodings (cut, bit flipped, continuation bit set) of the previous value are decoded on both instances, whatever they return. " +
+		"Every eighth struct type is padded to encodings of exactly 127/128/129/16383/16384/16385 bytes (thorough: also 2^21-1..2^21+1) and nested as field, pointer target, slice element and map value. " +
 		"A case is non-trivial when its value has a non-zero scalar, non-empty container or non-nil pointer; distinct = distinct (type, configuration, value-shape class) hashes."
 	core.Register(&core.Prop{
 		ID:        "C01",
